@@ -287,6 +287,73 @@ def asyncio_get_event_loop(I, args, kwargs):
     return sv
 
 
+def trio_current_token(I, args, kwargs):
+    """trio.lowlevel.current_trio_token(): the token of the trio run the caller is in (one object per run)"""
+    ctx = I.ctx
+    t = z3.Const("the_trio_token", Z.Val)
+    ctx.assume(z3.And(Z.is_refv(t), Z.Val.id(t) > 0, Z.Val.id(t) < ctx.alloc0))
+    return SV(t, TRef())
+
+
+def trio_open_memory_channel(I, args, kwargs):
+    """trio.open_memory_channel(inf): a fresh (send, receive) pair; the send side is open"""
+    ctx = I.ctx
+    send = fresh_abstract(I, "trio.SendChannel", closed=False)
+    recv = fresh_abstract(I, "trio.ReceiveChannel")
+    ctx.store_raw(ctx.ref_id(recv), "peer", send.t)
+    ctx.emit("open_memory_channel", send, recv)
+    return VTuple([send, recv])
+
+
+def trio_open_nursery(I, args, kwargs):
+    """async with trio.open_nursery() as n: the block is left only after every child task has finished (assumed)"""
+    ctx = I.ctx
+
+    def enter():
+        n = fresh_abstract(I, "trio.Nursery")
+        ctx.emit("nursery.enter", n)
+        ctx.ghost.setdefault("nurseries", []).append(n)
+        return n
+
+    def exit_(exc):
+        n = ctx.ghost["nurseries"].pop()
+        ctx.emit("nursery.exit", n)
+        return False
+
+    return CtxMgr(enter, exit_)
+
+
+def trio_run(I, args, kwargs):
+    """trio.run(f): runs f() on the calling thread in a new trio run and yields its outcome (child failures wrapped in
+    ExceptionGroup); returns only after every task of the run has finished"""
+    ctx = I.ctx
+    f = args[0]
+    f2 = ctx.from_val(f) if isinstance(f, SV) else f
+    key = f2.fn.key if isinstance(f2, BoundMethod) else str(f2)
+    ctx.emit("trio.run", key, f2.self_val if isinstance(f2, BoundMethod) else None)
+    r = I.call(f, [], {})
+    r2 = ctx.from_val(r) if isinstance(r, SV) else r
+    if isinstance(r2, Coro):
+        r = r2.thunk()
+    return r
+
+
+def asyncio_sleep(I, args, kwargs):
+    d = args[0]
+
+    def thunk():
+        ctx = I.ctx
+        ctx.emit("asyncio.sleep", ctx.to_val(d))
+        for f in ENV_FIELDS + ("task_done",):
+            ctx.heap[f] = fresh("H_%s" % f, ctx.field_array(f).sort())
+        ctx.ghost["nondet"] = True
+        if ctx.choose(2, "asyncio.sleep-outcome") == 1:
+            raise PyRaise(I.make_exception(ExternalRef("asyncio.CancelledError"), []))
+        return None
+
+    return Coro(thunk, "asyncio.sleep")
+
+
 def asyncio_current_task(I, args, kwargs):
     t = I.ctx.ghost.get("current_task")
     if t is None:
@@ -295,7 +362,9 @@ def asyncio_current_task(I, args, kwargs):
 
 
 def install(E):
-    E.externals.update({"threading.Event": threading_event, "asyncio.Event": asyncio_event, "asyncio.get_event_loop": asyncio_get_event_loop,
+    E.externals.update({"trio.lowlevel.current_trio_token": trio_current_token, "trio.open_memory_channel": trio_open_memory_channel,
+                        "trio.open_nursery": trio_open_nursery, "trio.run": trio_run, "asyncio.sleep": asyncio_sleep,
+                        "threading.Event": threading_event, "asyncio.Event": asyncio_event, "asyncio.get_event_loop": asyncio_get_event_loop,
                         "threading.Thread": threading_thread, "asyncio.run_coroutine_threadsafe": run_coroutine_threadsafe, "trio.from_thread.run": trio_from_thread_run,
                         "asyncio.current_task": asyncio_current_task, "trio.sleep": trio_sleep, "str.__mod__": str_mod, "logging.getLogger": get_logger,
                         "asyncio.run": asyncio_run, "asyncio.shield": asyncio_shield, "asyncio.gather": asyncio_gather})
